@@ -4,6 +4,7 @@ package gnark
 
 import (
 	"crypto/cipher"
+	"crypto/sha256"
 	"fmt"
 	"io"
 	"math/big"
@@ -140,8 +141,22 @@ func (p *G1Elt) IsInCorrectGroup() bool {
 var domainG1 = []byte("BLS_SIG_BLS12381G1_XMD:SHA-256_SSWU_RO_NUL_")
 
 func (p *G1Elt) Hash(msg []byte) kyber.Point { return p.Hash2(msg, domainG1) }
+
+// shortDST applies RFC 9380 section 5.3.3: a domain separation tag longer
+// than 255 bytes is replaced by H("H2C-OVERSIZE-DST-" || tag). gnark-crypto
+// refuses such tags instead.
+func shortDST(dst []byte) []byte {
+	if len(dst) <= 255 {
+		return dst
+	}
+	h := sha256.New()
+	h.Write([]byte("H2C-OVERSIZE-DST-"))
+	h.Write(dst)
+	return h.Sum(nil)
+}
+
 func (p *G1Elt) Hash2(msg, dst []byte) kyber.Point {
-	g1aff, err := bls12381.HashToG1(msg, dst)
+	g1aff, err := bls12381.HashToG1(msg, shortDST(dst))
 	if err != nil {
 		panic(fmt.Errorf("error while hashing: %w", err))
 	}
